@@ -10,7 +10,7 @@ import tempfile
 import zlib
 from pathlib import Path
 
-HEADER = '''from inline_snapshot import snapshot, outsource
+HEADER = '''from inline_snapshot import snapshot, outsource, customize_repr
 import collections
 from collections import OrderedDict, defaultdict      # generated names must resolve in the module's namespace
 import dataclasses
@@ -74,6 +74,35 @@ class Weird:
         return self.n == other.n
 
 
+class Pixel:
+    # the repr is no Python code and embeds the repr of a child whose code representation is customised
+    def __init__(self, color, n=0):
+        self.color, self.n = color, n
+
+    def __repr__(self):
+        return "<Pixel color=" + repr(self.color) + " n=" + repr(self.n) + ">"
+
+    def __eq__(self, other):
+        if not isinstance(other, Pixel):
+            return NotImplemented
+        return (self.color, self.n) == (other.color, other.n)
+
+
+class Money:
+    def __init__(self, amount, unit):
+        self.amount, self.unit = amount, unit
+
+    def __eq__(self, other):
+        if not isinstance(other, Money):
+            return NotImplemented
+        return (self.amount, self.unit) == (other.amount, other.unit)
+
+
+@customize_repr
+def _(value: Money):
+    return "Money(" + repr(value.amount) + ", " + repr(value.unit) + ")"
+
+
 def check(value, snap):
     assert value == snap
 
@@ -92,7 +121,8 @@ VALUES = {
     "bytes": ["b'ab'", "b''", "b'\\x00\\xff'", "b'it\\'s'"],
     "enum": ["Color.RED", "Color.GREEN"], "flag": ["Perm.R"], "flagcombo": ["Perm.R | Perm.W", "Perm.R | Perm.W | Perm.X"],
     "flag0": ["Perm(0)"], "type": ["int", "DC", "Color", "collections.OrderedDict"],
-    "hasrepr": ["Weird(7)"], "dataclass": ["DC(1)", "DC(a=[1, 2], b=6, c=[3])", "DC(a=DC(2), b='x')"],
+    "hasrepr": ["Weird(7)"], "hasrepr_nested": ["Pixel(Color.RED)", "Pixel(Perm.R | Perm.W, 2)", "Pixel(int, {3, 1, 2})"],
+    "usercustom": ["Money(5, Color.GREEN)", "Money(1.5, Perm.R)", "Money([1], DC(1))"], "dataclass": ["DC(1)", "DC(a=[1, 2], b=6, c=[3])", "DC(a=DC(2), b='x')"],
     "dataclass_default": ["DC(1, 5)", "DC('v', 5, [])"], "dataclass_factory": ["DC(1, c=[])", "DC(2, 6, [])"],
     "dataclass_norepr": ["DCNR(1, hidden=9)"],
     "attrs": ["AT(1)", "AT('x', b=2)", "AT([1], b=1)"], "pydantic": ["PD(a=1)", "PD(a=[1], b=3)", "PD(a='s', b=2)"],
